@@ -5,6 +5,8 @@ case, S1) and the byte offset at which the upstream producer died (stream cut). 
 exact reference evaluator for the generated filter grammar predicting stderr text and stdout
 bytes (pcap stream without -s, program prints only with -s).
 """
+import json
+
 from sim import content, pcapfmt, script
 from sim.prng import Rng
 
@@ -36,7 +38,7 @@ PROBES = [
     "probe.no_packet_selected", "probe.end_filter", "probe.skip_pcap", "probe.nondefault_header", "probe.local_used",
     "probe.command_mode", "probe.packet_gt_8192", "probe.end_only_program", "probe.nested_field_modified_then_written",
     "probe.late_nonfilter_statement", "probe.global_function_called", "probe.long_stream", "probe.empty_action_block",
-    "probe.flag_after_script_argument", "probe.exit_in_action",
+    "probe.flag_after_script_argument", "probe.exit_in_action", "probe.end_filter_not_last", "probe.side_effect_in_pattern",
 ]
 
 M = 1000003
@@ -50,6 +52,7 @@ VARS = ["NP", "PL", "WL", "TSS", "TSU"]
 PKTLESS = [False]
 NOVARS = [False]   # statements that run before the stream: no packet state, no NP
 NFUNCS = [0]       # number of global helper functions available to expressions
+TICK = [False]     # a helper with a side effect exists: tick(x) increments g0 and returns x
 ETH = [False]      # packets are Ethernet frames with an unparsed ethertype: ($1).src/dst/type usable
 MACS = ["11:22:33:44:55:66", "AA:BB:CC:DD:EE:FF", "00:00:00:00:00:00", "FF:FF:FF:FF:FF:FF", "02:42:AC:11:00:02"]
 
@@ -69,9 +72,13 @@ def gen_iexpr(rng, depth, nglob, locs):
         if k == "l":
             return ["l", rng.choice(locs)]
         return ["f", rng.choice(FIELDS)]
-    op = rng.weighted([(35, "+"), (20, "-"), (20, "*"), (25, "%"), (14 if NFUNCS[0] else 0, "call")])
+    op = rng.weighted([(35, "+"), (20, "-"), (20, "*"), (25, "%"), (14 if (NFUNCS[0] or TICK[0]) else 0, "call")])
     a = gen_iexpr(rng, depth - 1, nglob, locs)
     if op == "call":
+        if TICK[0] and not PKTLESS[0] and (NFUNCS[0] == 0 or rng.chance(40)):
+            return ["tick", a]
+        if NFUNCS[0] == 0:
+            return a
         return ["call", rng.below(NFUNCS[0]), a]
     if op == "*":
         return ["*", a, ["c", rng.choice([2, 3, 5, 16])]]
@@ -143,6 +150,8 @@ def src_iexpr(e):
         return "($1).type"
     if t == "x":
         return "x"
+    if t == "tick":
+        return "tick(%s)" % src_iexpr(e[1])
     if t == "call":
         return "fn%d(%s)" % (e[1], src_iexpr(e[2]))
     if t == "%":
@@ -196,9 +205,14 @@ def program_source(prog):
         lines.append("let g%d = %d;" % (i, v))
     for i, body in enumerate(prog.get("funcs", [])):
         lines.append("let fn%d = fn(x) { %s };" % (i, src_iexpr(body)))
+    if prog.get("tick"):
+        lines.append("let tick = fn(x) { g0 = ((g0 + 1) %% %d); x };" % M)
     lines.append('eprintln("P%s"%s);' % (" {}" * len(prog["globals"]), "".join(", g%d" % i for i in range(len(prog["globals"])))))
     late = prog.get("late", [])
+    endpos = prog.get("endpos")
     for fi, f in enumerate(prog["filters"]):
+        if prog["end"] is not None and endpos == fi:
+            lines.append("@ end { %s }" % src_stmts(prog["end"]))   # `end` need not be written last
         for pos, st in late:
             if pos == fi:
                 lines.append(src_stmts([st]))
@@ -208,7 +222,7 @@ def program_source(prog):
             lines.append("@ { %s }" % src_stmts(f["act"]))
         else:
             lines.append("@ %s { %s }" % (src_bexpr(f["pat"]), src_stmts(f["act"])))
-    if prog["end"] is not None:
+    if prog["end"] is not None and (endpos is None or endpos >= len(prog["filters"])):
         lines.append("@ end { %s }" % src_stmts(prog["end"]))
     for pos, st in late:
         if pos >= len(prog["filters"]):
@@ -259,6 +273,10 @@ def ev_i(e, env):
         return (env.data[12] << 8) | env.data[13]
     if t == "x":
         return env.x
+    if t == "tick":
+        arg = ev_i(e[1], env)
+        env.g[0] = _trunc_rem(env.g[0] + 1, M)
+        return arg
     if t == "call":
         arg = ev_i(e[2], env)
         saved = getattr(env, "x", None)
@@ -407,10 +425,16 @@ def _gen_program(rng, skip):
         base = rng.weighted([(60, ["x"]), (40, ["+", ["x"], ["g", rng.below(nglob)]] if nglob else ["x"])])
         prog["funcs"].append(["%", ["+", ["*", base, ["c", rng.choice([2, 3, 5])]], ["c", rng.choice([0, 1, 7])]], rng.choice([97, 1000, M])])
     NFUNCS[0] = nfun
+    prog["tick"] = bool(nglob >= 1 and rng.chance(20))   # patterns and actions may then have a side effect on g0
+    TICK[0] = prog["tick"]
     try:
-        return _gen_program2(rng, skip, nglob, prog)
+        prog = _gen_program2(rng, skip, nglob, prog)
+        if prog["end"] is not None and len(prog["filters"]) >= 2 and rng.chance(30):
+            prog["endpos"] = rng.below(len(prog["filters"]))   # the end filter stands before some per-packet filters
+        return prog
     finally:
         NFUNCS[0] = 0
+        TICK[0] = False
 
 
 def _gen_program2(rng, skip, nglob, prog):
@@ -665,6 +689,10 @@ def check(model, results):
         inc("probe.empty_action_block")
     if info.get("exited"):
         inc("probe.exit_in_action")
+    if model["prog"].get("endpos") is not None:
+        inc("probe.end_filter_not_last")
+    if any(f["pat"] is not None and "tick" in json.dumps(f["pat"]) for f in model["prog"]["filters"]):
+        inc("probe.side_effect_in_pattern")
     if model["skip"] and model.get("flagpos") == "after_arg" and not model["cmd"]:
         inc("probe.flag_after_script_argument")
     inc("ops.packets", len(recs))
